@@ -170,7 +170,7 @@ def check_merge(ctx, items):
 def cli_case(draw):
     pool = draw(st.lists(V.safe_holder(markers=True), min_size=1, max_size=2, unique=True))
     existing = draw(st.lists(st.tuples(st.sampled_from(sorted(V.PREFIXES)), V.opt_year(), st.sampled_from(pool)), max_size=4))
-    mode = draw(st.sampled_from(["new", "new", "same-holder", "repeat-line", "licence-only"]))
+    mode = draw(st.sampled_from(["new", "new", "same-holder", "repeat-line", "licence-only", "request-notices"]))
     years = draw(st.lists(st.integers(1980, 2030).map(str), max_size=3))
     exclude = draw(st.booleans()) if not years else False
     prefix = draw(st.one_of(st.none(), st.sampled_from(sorted(V.PREFIXES))))
@@ -192,6 +192,11 @@ def cli_case(draw):
         new_holders = []
     merge = draw(st.booleans()) if mode in ("new", "same-holder") else True
     style = draw(st.sampled_from(["python", "c", "html", "cpp"]))
+    if mode == "request-notices":
+        # the request itself carries several complete notices, some of them of one holder; no header yet; with and without --no-replace
+        items = draw(st.lists(st.tuples(st.sampled_from(sorted(V.PREFIXES)), V.year(), st.sampled_from(pool)), min_size=2, max_size=4))
+        return {"existing": [], "holders": [], "request_items": items, "years": [], "exclude_year": True, "prefix": None, "merge": True, "style": style, "mode": mode,
+                "no_replace": draw(st.booleans())}
     return {"existing": existing, "holders": new_holders, "years": years, "exclude_year": exclude, "prefix": prefix, "merge": merge, "style": style, "mode": mode}
 
 
@@ -214,6 +219,10 @@ def check_cli(ctx, c):
         args = ["annotate"]
         for h in c["holders"]:
             args += ["--copyright", h]
+        for it in c.get("request_items", []):
+            args += ["--copyright", V.notice(*it)]
+        if c.get("no_replace"):
+            args.append("--no-replace")
         if not c["holders"]:
             args += ["--license", "ISC"]
         for y in c["years"]:
@@ -237,7 +246,7 @@ def check_cli(ctx, c):
         else:
             yr = f"{min(c['years'])} - {max(c['years'])}"
         pfx = c["prefix"] or "spdx"
-        new_items = [(pfx, yr, h) for h in c["holders"]]
+        new_items = [(pfx, yr, h) for h in c["holders"]] + [tuple(it) for it in c.get("request_items", [])]
         new_lines = {V.notice(*it) for it in new_items}
         _r, data = tree.lint_json(d)
         ent = tree.file_entry(data, name) if data else None
@@ -248,7 +257,7 @@ def check_cli(ctx, c):
         for _p, _y, h in c["existing"] + new_items:
             per_holder[h] = per_holder.get(h, 0) + 1
         ctx.count(c, nontrivial=bool((yr and pfx != "spdx") or (c["merge"] and any(v >= 2 for v in per_holder.values()))),
-                  labels=[f"cli:merge={c['merge']}", f"cli:style={c['style']}", f"cli:years={len(c['years'])}", f"cli:mode={c.get('mode')}"])
+                  labels=[f"cli:merge={c['merge']}", f"cli:style={c['style']}", f"cli:years={len(c['years'])}", f"cli:mode={c.get('mode')}", f"cli:no-replace={bool(c.get('no_replace'))}"])
         if c["merge"]:
             # (the requested statements are merged among themselves too, also when there is no header yet)
             judge_merged(ctx, c, got, merge_expect(c["existing"] + new_items), "annotate --merge-copyrights + lint")
